@@ -17,6 +17,8 @@ func c15Alphabet(c Cfg) []Op {
 		{K: "put", Key: "a", VC: "E", Dev: true},
 		{K: "restart", Dev: true},
 		{K: "merge", Dev: true},
+		{K: "put", Key: "b", VC: "M", Dev: true}, // 3-block value: Get assembles it in a pooled buffer
+		{K: "put", Key: "a", VC: "F", Arg: 40000, Dev: true},
 	}
 	p := func(k, vc string) Op { return Op{K: "put", Key: k, VC: vc} }
 	d := func(k string) Op { return Op{K: "del", Key: k} }
@@ -86,6 +88,9 @@ func c15Cfgs() []Cfg {
 		c.Shards = 1
 		out = append(out, c)
 	}
+	big := defaultCfg
+	big.FileSize = 1 << 20 // multi-block values stay in one file together with small records
+	out = append(out, big)
 	return out
 }
 
